@@ -201,6 +201,146 @@ enum Via {
 }
 
 // ---------------------------------------------------------------------------
+// shared StringBufs: StringBuf is the other built-in type with shared interior state (a
+// mutex-protected string behind an Arc). The Rust type is not exported, so two threads
+// come to share StringBufs the way any host can make them: as script constants (every
+// read of a constant is a handle to the one buffer). The functions compare the two
+// constants in both operand orders and are called from several threads at once.
+// ---------------------------------------------------------------------------
+
+fn shared_sb_src(n: usize, equal: bool) -> String {
+    let text = "r".repeat(n);
+    let other = if equal { text.clone() } else { format!("{text}!") };
+    format!(
+        "const SB_A: StringBuf = StringBuf.from(\"{text}\");\nconst SB_B: StringBuf = StringBuf.from(\"{other}\");\n\n\
+         fn eq_ab() -> bool {{\n    SB_A == SB_B\n}}\n\nfn eq_ba() -> bool {{\n    SB_B == SB_A\n}}\n\n\
+         fn ne_ab() -> bool {{\n    SB_A != SB_B\n}}\n\nfn ne_ba() -> bool {{\n    SB_B != SB_A\n}}\n\n\
+         fn same() -> bool {{\n    SB_A == SB_A && SB_B == SB_B\n}}\n\n\
+         fn lens() -> bool {{\n    SB_A.as_string() == SB_B.as_string()\n}}\n"
+    )
+}
+
+type FSb = roto::TypedFunc<NoCtx, fn() -> bool>;
+
+impl Concurrent {
+    fn shared_stringbufs(&mut self, rng: &mut Rng, args: &Args) -> CaseOut {
+        let mut out = CaseOut::default();
+        // long contents keep a thread inside the comparison for a while
+        let n = *rng.pick(&[0usize, 5, 4096, 1 << 18]);
+        let equal = rng.bool();
+        let src = shared_sb_src(n, equal);
+        out.hash = hash_str(&src) ^ rng.next();
+        out.sample = Some(J::obj().set("profile", "shared-stringbufs").set("source", if n > 64 { shared_sb_src(8, equal) } else { src.clone() }).set("len", n as u64));
+        out.tags.push("profile:shared-stringbufs".into());
+        let mut pkg = match catch(|| exec::compile(&src, &self.rt)) {
+            Ok(Ok(p)) => p,
+            Ok(Err(e)) => {
+                out.viol("concurrent:shared-stringbufs-script-rejected", e.lines().next().unwrap_or("").to_string(), J::Null);
+                return out;
+            }
+            Err(p) => {
+                out.viol(format!("concurrent:compile-{}", panic_sig(&p)), p, J::Null);
+                return out;
+            }
+        };
+        let names = ["eq_ab", "eq_ba", "ne_ab", "ne_ba", "same", "lens"];
+        let mut fs: Vec<FSb> = Vec::new();
+        for nm in names {
+            match pkg.get_function::<fn() -> bool>(nm) {
+                Ok(f) => fs.push(f),
+                Err(_) => {
+                    out.skipped = Some("shared-stringbufs:no-function".into());
+                    return out;
+                }
+            }
+        }
+        out.tags.push(format!("shared-stringbufs:len:{n}"));
+        out.tags.push(format!("shared-stringbufs:equal-contents:{equal}"));
+        let n_threads = *rng.pick(&[2usize, 2, 3, 4, 8]);
+        out.tags.push(format!("threads:{n_threads}"));
+        let rounds: usize = if n >= 1 << 18 { 2_000 } else if args.thorough() { 100_000 } else { 30_000 };
+        let reference: Vec<bool> = fs.iter().map(|f| f.call()).collect();
+        let (tx, rx) = mpsc::channel::<Result<u64, String>>();
+        let start = Arc::new(std::sync::Barrier::new(n_threads));
+        let progress = Arc::new(AtomicU64::new(0));
+        for t in 0..n_threads {
+            let progress = progress.clone();
+            let fs = fs.clone();
+            let reference = reference.clone();
+            let tx = tx.clone();
+            let start = start.clone();
+            let seed = rng.next();
+            std::thread::spawn(move || {
+                let mut r = Rng::new(seed);
+                start.wait();
+                let mut calls = 0u64;
+                for round in 0..rounds {
+                    // mostly comparisons of the two buffers; neighbouring threads prefer
+                    // opposite operand orders
+                    let op = if r.chance(7, 8) { 2 * r.usize(2) + (if r.chance(7, 8) { t % 2 } else { r.usize(2) }) } else { 4 + r.usize(2) };
+                    let got = fs[op].call();
+                    calls += 1;
+                    progress.fetch_add(1, Ordering::Relaxed);
+                    if got != reference[op] {
+                        let _ = tx.send(Err(format!("thread {t} round {round} function {}: got {got} single-threaded {}", ["eq_ab", "eq_ba", "ne_ab", "ne_ba", "same", "lens"][op], reference[op])));
+                        return;
+                    }
+                }
+                let _ = tx.send(Ok(calls));
+            });
+        }
+        drop(tx);
+        // as in shared_lists: "never returns" is decided on progress, not on a deadline
+        let t0 = std::time::Instant::now();
+        let mut last_progress = (progress.load(Ordering::Relaxed), std::time::Instant::now());
+        let mut done = 0;
+        let mut total = 0u64;
+        while done < n_threads {
+            match rx.recv_timeout(std::time::Duration::from_millis(500)) {
+                Ok(Ok(c)) => {
+                    done += 1;
+                    total += c;
+                }
+                Ok(Err(m)) => {
+                    done += 1;
+                    out.viol("concurrent:shared-stringbufs-result-differs", m, J::obj().set("threads", n_threads as u64).set("len", n as u64));
+                }
+                Err(mpsc::RecvTimeoutError::Timeout) => {
+                    let p = progress.load(Ordering::Relaxed);
+                    if p != last_progress.0 {
+                        last_progress = (p, std::time::Instant::now());
+                    } else if last_progress.1.elapsed().as_secs() >= 15 {
+                        out.viol(
+                            "concurrent:shared-stringbufs-calls-never-return",
+                            format!(
+                                "{} of {n_threads} threads comparing two StringBuf constants (len {n}) in both operand orders are stuck: no call returned on any thread for 15 s after {p} completed calls: the calls wait for each other",
+                                n_threads - done
+                            ),
+                            J::obj().set("threads", n_threads as u64).set("len", n as u64).set("calls_completed", p),
+                        );
+                        break;
+                    }
+                    if t0.elapsed().as_secs() >= 180 {
+                        out.skipped = Some("shared-stringbufs:slow".into());
+                        break;
+                    }
+                }
+                Err(mpsc::RecvTimeoutError::Disconnected) => {
+                    out.viol("concurrent:thread-panicked", "a worker thread of the shared-stringbufs scenario ended without a result", J::Null);
+                    break;
+                }
+            }
+        }
+        out.evals = total;
+        out.events = total;
+        out.count("concurrent_calls", total);
+        out.count("shared_stringbuf_calls", total);
+        out.nontrivial = total > 0;
+        out
+    }
+}
+
+// ---------------------------------------------------------------------------
 // shared list arguments: the same handles called from several threads with the same
 // two lists in both argument orders
 // ---------------------------------------------------------------------------
@@ -735,6 +875,9 @@ impl Family for Concurrent {
     }
 
     fn describe(&mut self, k: u64, rng: &mut Rng, _args: &Args) -> Option<J> {
+        if k % 16 == 5 {
+            return Some(J::obj().set("profile", "shared-stringbufs").set("source", shared_sb_src(5, true)).set("sig_hint", "concurrent:shared-stringbufs"));
+        }
         if k % 8 == 7 {
             return Some(J::obj().set("profile", "shared-lists").set("source", SHARED_SRC));
         }
@@ -746,6 +889,9 @@ impl Family for Concurrent {
     }
 
     fn run(&mut self, k: u64, rng: &mut Rng, args: &Args) -> CaseOut {
+        if k % 16 == 5 {
+            return self.shared_stringbufs(rng, args);
+        }
         if k % 8 == 7 {
             return self.shared_lists(rng, args);
         }
